@@ -34,6 +34,51 @@ theorem strip_trim (a : Str) : strip (trim a) = strip a := by
 
 theorem strip_nn : strip [10, 10] = [] := by decide
 
+/-! ### trimRight (`strings.TrimRightFunc(s, unicode.IsSpace)`, the list chunk text) -/
+
+theorem trim_eq_trimRight (a : Str) : trim a = trimRight (a.dropWhile isSpace) := rfl
+
+theorem strip_trimRight (a : Str) : strip (trimRight a) = strip a := by
+  unfold trimRight
+  rw [strip_reverse, strip_dropWhile, strip_reverse, List.reverse_reverse]
+
+theorem mem_takeWhile_isSpace (l : Str) : ∀ c ∈ l.takeWhile isSpace, isSpace c = true := by
+  induction l with
+  | nil => intro c hc; cases hc
+  | cons x l ih =>
+    intro c hc
+    rw [List.takeWhile_cons] at hc
+    by_cases hx : isSpace x = true
+    · simp only [hx, if_true, List.mem_cons] at hc
+      rcases hc with rfl | hc
+      · exact hx
+      · exact ih c hc
+    · simp [hx] at hc
+
+/-- trimming the end takes white space from the end and nothing else -/
+theorem trimRight_tail (s : Str) : ∃ ws, (∀ c ∈ ws, isSpace c = true) ∧ trimRight s ++ ws = s := by
+  refine ⟨(s.reverse.takeWhile isSpace).reverse, ?_, ?_⟩
+  · intro c hc
+    exact mem_takeWhile_isSpace _ c (List.mem_reverse.mp hc)
+  · unfold trimRight
+    rw [← List.reverse_append, List.takeWhile_append_dropWhile, List.reverse_reverse]
+
+/-- everything up to a byte that is not white space survives the trimming of the end -/
+theorem trimRight_keep (a : Str) (c : Nat) (b : Str) (hc : isSpace c = false) :
+    trimRight (a ++ c :: b) = a ++ c :: trimRight b := by
+  have key : ∀ r : Str, ((r ++ c :: a.reverse).dropWhile isSpace).reverse
+      = a ++ c :: (r.dropWhile isSpace).reverse := by
+    intro r
+    induction r with
+    | nil => simp [hc]
+    | cons x r ih =>
+      by_cases hx : isSpace x = true
+      · simpa [List.dropWhile_cons, hx] using ih
+      · simp [hx]
+  unfold trimRight
+  have := key b.reverse
+  simpa using this
+
 /-- concatenated chunk texts -/
 def textsOf (cs : List Chunk) : Str := (cs.map (·.text)).flatten
 
